@@ -288,7 +288,7 @@ protected:
             // we know it is 3 times 3 box (-1;+1)
             return 7;
         }
-        return 6 * (1 << (inNbLevelsAbove0));
+        return 6 * (1L << (inNbLevelsAbove0));
     }
 
     static auto GetExtendedBoxCenter(const SpacialConfiguration& inConfiguration, const long int inNbLevelsAbove0) {
@@ -328,7 +328,7 @@ protected:
     static auto GetExtendedBoxWidth(const SpacialConfiguration& inConfiguration, const long int inNbLevelsAbove0){
         assert(-1 <= inNbLevelsAbove0);
         auto boxWidths = inConfiguration.getBoxWidths();
-        const RealType coef = (inNbLevelsAbove0 == -1 ? 2 : RealType(4<<(inNbLevelsAbove0)));
+        const RealType coef = (inNbLevelsAbove0 == -1 ? 2 : RealType(4L<<(inNbLevelsAbove0)));
         for(long int idxDim = 0 ; idxDim < Dim ; ++idxDim){
             boxWidths[idxDim] *= coef;
         }
@@ -338,7 +338,7 @@ protected:
     static auto GetExtendedBoxWidthBoundary(const SpacialConfiguration& inConfiguration, const long int inNbLevelsAbove0){
         assert(-1 <= inNbLevelsAbove0);
         auto boxWidths = inConfiguration.getBoxWidths();
-        const RealType coef = (inNbLevelsAbove0 == -1 ? 4 : RealType(8<<(inNbLevelsAbove0)));
+        const RealType coef = (inNbLevelsAbove0 == -1 ? 4 : RealType(8L<<(inNbLevelsAbove0)));
         for(long int idxDim = 0 ; idxDim < Dim ; ++idxDim){
             boxWidths[idxDim] *= coef;
         }
@@ -449,7 +449,7 @@ public:
         std::array<long int, Dim> margin;
 
         for(long int idxDim = 0 ; idxDim < Dim ; ++idxDim){
-            margin[idxDim] = std::abs(minBoxCorner[idxDim]) * (1 << inLevel);
+            margin[idxDim] = std::abs(minBoxCorner[idxDim]) * (1L << inLevel);
         }
 
         auto coordToFound = spaceSystem.getBoxPosFromIndex(inIndexToFound);
